@@ -24,6 +24,6 @@ For each change i in 1..3 create the directory {root}/{pid}/_seeded/{pid}-<short
   - a demonstration: a pytest test file `test_demo.py` or a script `demo.sh`/`demo.py` that FAILS (non-zero exit) with the change applied and PASSES (exit 0) on the clean worktree. It must be runnable from the worktree root with /venv/bin/python (e.g. `cd {root}/{pid} && /venv/bin/python _seeded/<dir>/demo.py`). Running mypy from the worktree: `cd {root}/{pid} && /venv/bin/python -m mypy ...` picks up the worktree's sources. Keep demos fast (< 2 min) and self-contained (temp dirs, no network).
   - meta.json : {{"property": "{pid}", "summary": "...what was changed...", "needs_to_manifest": "...the specific input / sequence / fault...", "files_touched": [...], "tests_run": ["cmd -> result", ...], "demo_cmd": "..."}}
 
-Verify each demonstration yourself both ways (fails with patch, passes without). Use /venv/bin/python for everything (python 3.12 with the repo's dependencies; there is no network). The machine has 16 cores but is shared: use at most `-n 4` for pytest-xdist and keep test runs targeted.
+Verify each demonstration yourself both ways (fails with patch, passes without). Do not use `git stash` (the stash is shared with other worktrees of the same repository): to get back to the clean tree use `git diff > file` followed by `git checkout -- .`, and `git apply file` / `git apply -R file` to switch. Use /venv/bin/python for everything (python 3.12 with the repo's dependencies; there is no network). The machine has 16 cores but is shared: use at most `-n 4` for pytest-xdist and keep test runs targeted.
 
 When done, leave the worktree clean (`git status` shows only the untracked _seeded/ directory) and reply with a short list: for each change, its directory, one sentence on what it breaks and what it needs to manifest, and the tests you ran. If you could not find a change satisfying (a)-(c) for some slot, say so rather than padding.""")
